@@ -248,10 +248,21 @@ def oracle(proj, root, impl, cli):
             if sorted(cli["analyzing"]) != want_t and not dup:
                 fails.append({"clause": "only named files are analysed",
                               "detail": "analysed %s, templates of named files %s" % (sorted(cli["analyzing"]), want_t)})
+            found_in = set()
             for f in cli["finding_files"]:
                 c = os.path.realpath(f if f.startswith("/") else os.path.join(root, f))
+                found_in.add(c)
                 if c not in named:
                     fails.append({"clause": "included-only files produce no findings", "detail": "finding located in " + f})
+            # the other side of the file filter: the template generated for
+            # every file has findings of its own (`b <-- a`), so every named
+            # file that parses is reported on — whichever named file was
+            # parsed first and whether or not another named file includes it
+            if sorted(cli["analyzing"]) == want_t and not dup and not cli.get("panicked"):
+                for c in sorted(parsed_ok):
+                    if c in named and c not in found_in:
+                        fails.append({"clause": "named files are reported on",
+                                      "detail": "no finding located in the named file %s (findings in %s)" % (c, sorted(found_in))})
             cli_real = [os.path.realpath(p if p.startswith("/") else os.path.join(root, p)) for p in cli["read"]]
             if sorted(cli_real) != sorted(read_real):
                 fails.append({"clause": "each distinct file is read and parsed once",
@@ -384,11 +395,19 @@ def shapes():
         cands = sorted(p["files"]) + sorted(k for k in p["links"] if k.endswith(".circom"))
         for r in range(1, len(cands) + 1):
             for sub in itertools.combinations(cands, r):
-                q = json.loads(json.dumps(p))
-                q["argv"] = list(sub)
-                q["shape"] = name
-                res.append(q)
+                # every ORDER of the named files too (which file's stack entry is
+                # popped first depends on it); subsets of more than
+                # MAX_PERMUTED files only in sorted order
+                orders = itertools.permutations(sub) if r <= MAX_PERMUTED else [sub]
+                for order in orders:
+                    q = json.loads(json.dumps(p))
+                    q["argv"] = list(order)
+                    q["shape"] = name
+                    res.append(q)
     return res
+
+
+MAX_PERMUTED = 4
 
 
 def spell(rng, rel, links_to_dirs):
@@ -644,7 +663,8 @@ def run(ctx, proofs):
             "exhaustive": False,
             "exhaustive_part": "for each of the %d fixed shapes (chain, diamond, cycle with self-includes, library directory, "
                                "D23 witnesses, library file, symlinks, library order, unresolved) every non-empty subset of its "
-                               "files is named on the command line: %d projects" % (len({p.get('shape') for p in shapes()}), len(shapes())),
+                               "files is named on the command line, subsets of up to %d files in every order: %d projects"
+                               % (len({p.get('shape') for p in shapes()}), MAX_PERMUTED, len(shapes())),
             "samples": [strip_root({"input": r["proj"], "impl": r["norm"]}, r["root"]) for r in (disagreements[:1] or res[-2:])],
             "projects_by_shape": shapes_count,
             "files_read_histogram": {str(k): nread.count(k) for k in sorted(set(nread))},
